@@ -518,4 +518,20 @@ theorem colorFns_ok (ratios : List ℝ) (h : ∀ r ∈ ratios, r ≤ 2.5) :
     rw [← hv.2]
     exact ⟨trivial, colorEval_nonneg ratios o h c hc⟩
 
+/-! ### finished skills -/
+
+/-- all numbers a finished skill holds are `≥ 0` and `StrainsVec::push` altered none of them -/
+def SkillNonneg {σ : Type} (st : StateV ℝ σ) : Prop :=
+  (∀ v ∈ st.objectStrains, 0 ≤ v) ∧ (∀ p ∈ st.peaks, 0 ≤ p) ∧ 0 ≤ st.sectionPeak ∧
+    exportPeaksV st = st.peaks ++ [st.sectionPeak]
+
+theorem skillNonneg_of_ok {σ : Type} {Inv : σ → Prop} {st : StateV ℝ σ}
+    (h : StateOK Inv (fun v : ℝ => 0 ≤ v) (fun v : ℝ => 0 ≤ v) st) : SkillNonneg st :=
+  ⟨h.objectStrains, h.peaks, h.sectionPeak, exportPeaksV_of_nonneg h.peaks h.sectionPeak⟩
+
+theorem hmax : ∀ a b : ℝ, 0 ≤ a → 0 ≤ b → 0 ≤ FOps.fmax a b := fun _ _ ha _ => le_max_of_le_left ha
+
+theorem zero_ok : (0 : ℝ) ≤ (@OfScientific.ofScientific ℝ FOps.toOfScientific 0 true 1) := by
+  rw [r_zero]
+
 end Rosu.TaikoSkill
